@@ -18,7 +18,7 @@ TEMPLATE = open(os.path.join(VERIF, 'tools', 'seed_prompt_template.txt')).read()
 for pid in sorted(props):
     o = props[pid]
     earlier = []
-    for suf in 'abcdefgh':
+    for suf in 'abcdefghi':
         mp = os.path.join(VERIF, 'seeded', f'{pid}-{suf}', 'meta.json')
         if os.path.exists(mp):
             earlier.append('   - ' + json.load(open(mp)).get('summary', '')[:300].replace('\n', ' '))
